@@ -174,4 +174,4 @@ def signature(case, impl_obs, model_obs):
     return "pool:oracle"
 
 
-PARTS = [{"name": "ctl_pool", "harness": "ctl_pool.cpp", "gen": gen, "no_shrink": False, "timeout_case": 1}]
+PARTS = [{"name": "ctl_pool", "harness": "ctl_pool.cpp", "gen": gen, "no_shrink": False, "timeout_case": 6}]
